@@ -1,7 +1,7 @@
 (* C16 — barriers/measurements are transparent; labelled barriers sample where they stand. *)
 From Coq Require Import List Arith Permutation.
 Import ListNotations.
-From Yaqs Require Import Model.DigitalLoop Proofs.DigitalLoopP Model.Params Proofs.ParamsP.
+From Yaqs Require Import Model.DigitalLoop Proofs.DigitalLoopP Model.Params Proofs.ParamsP Model.LayerRule Gen.LayerGen Proofs.LayerRuleP.
 
 (* the scheduling loop ends for every circuit, in strong mode with sampling on or off and in weak mode
    (sampling = false), with at most one iteration per instruction *)
@@ -61,6 +61,33 @@ Theorem C16_gauge_word_refines_loop : forall sampling fuel rem ex ev, run sampli
   exists w lost, run_g sampling fuel rem = Some (w, lost) /\ filter no_read w = gauge_word ex.
 Proof. exact run_g_refines_run. Qed.
 Print Assumptions C16_gauge_word_refines_loop.
+
+(* front-layer filtering as the SOURCE states it now (Gen/LayerGen.v is regenerated from process_layer on every run): for every node
+   description that represents a model instruction, the source files the node where DigitalLoop.iter files the instruction —
+   measurements and unlabelled barriers dropped, labelled barriers (label compared case-insensitively) kept as sampling points,
+   one-qubit gates, even and odd two-qubit gates, each group sorted by the same key — and raises only for gates on three or more qubits *)
+Theorem C16_source_layer_rule_is_model : forall d i, represents d i ->
+  classify_src d = model_class i
+  /\ (kind i = G1 -> single_key_src d = minq i)
+  /\ (kind i = G2 -> even_key_src d = minq i /\ odd_key_src d = minq i).
+Proof. exact layer_rule_src_is_model. Qed.
+Print Assumptions C16_source_layer_rule_is_model.
+Theorem C16_source_rejects_only_wide_gates : forall d,
+  classify_src d = CRaise <-> is_gate_name d = true /\ d_nq d <> 1 /\ d_nq d <> 2.
+Proof. exact layer_rule_raises_only_wide. Qed.
+Print Assumptions C16_source_rejects_only_wide_gates.
+Theorem C16_loop_groups_are_classes : forall layer,
+  filter (fun i => is_kind Meas i || is_kind Bar i)%bool layer = filter (fun i => cls_eqb (model_class i) CDrop) layer
+  /\ filter (is_kind G1) layer = filter (fun i => cls_eqb (model_class i) CSingle) layer
+  /\ filter (fun i => is_kind G2 i && is_even i)%bool layer = filter (fun i => cls_eqb (model_class i) CEven) layer
+  /\ filter (fun i => is_kind G2 i && negb (is_even i))%bool layer = filter (fun i => cls_eqb (model_class i) COdd) layer
+  /\ filter (is_kind SBar) layer = filter (fun i => cls_eqb (model_class i) CSample) layer.
+Proof. exact iter_groups_are_classes. Qed.
+Print Assumptions C16_loop_groups_are_classes.
+Example C16_layer_rule_example :
+  classify_src ex_labelled_barrier = CSample /\ classify_src ex_plain_barrier = CDrop /\ classify_src ex_cx_21 = COdd
+  /\ represents ex_cx_21 (mk 7 G2 [2;1]).
+Proof. vm_compute. repeat split; reflexivity. Qed.
 
 Example C16_gauge_example :
   traj_word Weak [mk 0 G1 [0]; mk 1 G2 [1;2]; mk 2 Bar [0;1;2]] = Some [GOne; GTwo; GRestore; GRead]
